@@ -443,18 +443,20 @@ int derive_session_event(const void *frame, size_t frame_len, session_table *tab
             if (station_count == 0) {
                 acking = true;
             } else {
-                const ethernet_header_t *stations = disc_header->stationList;
+                /* On the wire the station list is a run of 6-byte addresses (MS-LLTD 2.2.3.2). */
+                const uint8_t *stations = (const uint8_t *)disc_header->stationList;
+                const size_t station_size = sizeof(ethernet_address_t);
                 /* The wire count is untrusted: scan only the stations the frame really holds. */
                 size_t list_offset = sizeof(*header) + offsetof(lltd_discover_upper_header_t, stationList);
                 size_t held = 0;
                 if (frame_len > list_offset) {
-                    held = (frame_len - list_offset) / sizeof(stations[0]);
+                    held = (frame_len - list_offset) / station_size;
                 }
                 if ((size_t)station_count > held) {
                     station_count = (uint16_t)held;
                 }
                 for (uint16_t i = 0; i < station_count; i++) {
-                    if (mac_equal(stations[i].source.a, our_mac)) {
+                    if (mac_equal(stations + (size_t)i * station_size, our_mac)) {
                         acking = true;
                         break;
                     }
